@@ -1393,3 +1393,24 @@ V("C03-cut-prefix-decoded-for-seek","C03","pkg/core/object/metadata.go","""	if !
 		!(primMatcher == object.MatchCommonPrefix && prefixNeedsFullScan(fs[0].Header(), primVal)) {""","""	if !oidSorted && cursor == "" && primMatcher != object.MatchStringNotEqual && !IsIntegerSearchOp(primMatcher) {""",rule="C03.R7")
 V("C02-silent-recount-objectstatus","C02","pkg/local_object_storage/metabase/counter.go","bytes.Equal(k, garbageKey) || inGarbage(cInt, obj) != statusAvailable {","bytes.Equal(k, garbageKey) || objectStatus(cInt, obj, 0) != statusAvailable {",expect="silent")
 V("C42-silent-recount-objectstatus","C42","pkg/local_object_storage/metabase/counter.go","bytes.Equal(k, garbageKey) || inGarbage(cInt, obj) != statusAvailable {","bytes.Equal(k, garbageKey) || objectStatus(cInt, obj, 0) != statusAvailable {",expect="silent")
+
+# ---- C10 (addressing structure)
+FT="pkg/local_object_storage/blobstor/fstree/"
+V("C10-first-combined-entry-returned","C10",FT+"fstree.go","""		if bytes.Equal(thisOID, id[:]) {
+			if l == 0 {
+				return nil, io.ErrUnexpectedEOF
+			}
+			return t.readFullObject(f, nil, int64(l))
+		}""","""		if l != 0 && (bytes.Equal(thisOID, id[:]) || id.IsZero() || l < 8) {
+			return t.readFullObject(f, nil, int64(l))
+		}""",rule="C10.R2")
+V("C10-batch-frames-with-first-id","C10",FT+"fstree_write_linux.go","err = sb.write(obj.id, obj.path, obj.data)","err = sb.write(objs[0].id, obj.path, obj.data)",rule="C10.R3")
+V("C10-exists-stats-container-dir","C10",FT+"fstree.go","""func (t *FSTree) getPath(addr oid.Address) (string, error) {
+	p := t.treePath(addr)
+""","""func (t *FSTree) getPath(addr oid.Address) (string, error) {
+	p := filepath.Dir(t.treePath(addr))
+""",rule="C10.R1")
+V("C10-silent-path-local","C10",FT+"fstree.go","""	p := t.treePath(addr)
+	return t.getObjectBytesByPath(addr.Object(), p)""","""	objPath := t.treePath(addr)
+	id := addr.Object()
+	return t.getObjectBytesByPath(id, objPath)""",expect="silent")
